@@ -60,6 +60,11 @@ type groupBy struct {
 	group []reflect.Value
 }
 
+// String keeps the iterator's address out of anything that prints it.
+func (g *groupBy) String() string {
+	return fmt.Sprintf("groupBy(%d of %d groups left)", len(g.group)-g.pos, len(g.group))
+}
+
 // Next returns the next group from the GroupBy
 func (g *groupBy) Next() interface{} {
 	if g.pos >= len(g.group) {
